@@ -3,7 +3,7 @@
     denotes, and a strict reader of names); Model/Suite.v is the registry (regenerated from
     suite_rfc6287.go on every run) and the parser. *)
 From Coq Require Import String.
-From OtpV Require Import Prelude Sha Errors Ocra Suite SuiteName OcraProofs SuiteProofs.
+From OtpV Require Import Prelude Sha Errors Ocra Suite SuiteName OcraProofs SuiteProofs NameProofs.
 Open Scope N_scope.
 
 (** every advertised name, read under the naming scheme, prints back to itself and denotes
@@ -73,6 +73,21 @@ Theorem C15_reject_version : forall v rest,
   Forall (fun c => c <> 58) v -> v <> s2b "OCRA-1" -> exists e, parse_raw_suite (v ++ 58 :: rest) = Err e.
 Proof. exact parse_reject_version. Qed.
 Print Assumptions C15_reject_version.
+
+(** the strict reader recovers an abstract name from its printed form, so the printer is
+    injective: a string of the scheme says exactly one thing *)
+Theorem C15_name_says_one_thing : forall a a', wf_ast a -> wf_ast a' ->
+  read_name (print_name a) = Some a /\ (print_name a = print_name a' -> a = a').
+Proof. intros a a' H H'. split; [apply read_print; exact H|apply print_injective; assumption]. Qed.
+Print Assumptions C15_name_says_one_thing.
+
+(** the property in one statement: whatever NewRawSuite returns for a name of the scheme — a
+    registered configuration or a parsed one — denotes exactly what the name says and reports
+    the name *)
+Theorem C15_faithful : forall a c, wf_ast a ->
+  new_raw_suite (print_name a) = Ok c -> denotation_of c = denote a /\ sc_raw c = print_name a.
+Proof. exact new_raw_suite_faithful. Qed.
+Print Assumptions C15_faithful.
 
 (** non-vacuity *)
 Example C15_examples :
